@@ -19,7 +19,15 @@ type emission struct {
 	term   *ir.Term
 }
 
-func (em emission) key() string { return em.term.Key() }
+// key identifies an emission across paths by what it prints (kind, name, field), not by how the text is put
+// together on a particular path (the separator in front of it may differ).
+func (em emission) key() string {
+	f := ""
+	if em.field != nil {
+		f = em.field.Name()
+	}
+	return em.kind + "|" + em.name + "|" + f
+}
 
 // emissionsOf extracts the ordered emissions of one Encode path.
 func (e *Env) emissionsOf(l *facts.Level, lf *ir.Leaf) (list []emission, builder bool, err error) {
@@ -47,61 +55,34 @@ func (e *Env) emissionsOf(l *facts.Level, lf *ir.Leaf) (list []emission, builder
 				// tolerate any fresh empty slice form: slice of a zero-length alloc
 			}
 		}
-	case isCallOf(r, "(*strings.Builder).String"):
+	case isCallOf(r, "(*strings.Builder).String") || r.Op == "concat":
+		// a strings.Builder, one concatenation, or a mixture (lower-level text + builder.String())
 		builder = true
-		bobj := r.Args[0].Key()
-		var stream []*ir.Term
-		for _, ef := range lf.Effects {
-			if ef.Kind != "call" || ef.Val.Op != ir.OCall || len(ef.Val.Args) == 0 {
-				continue
-			}
-			onBuilder := ef.Val.Args[0].Key() == bobj
-			switch {
-			case isCallOf(ef.Val, "(*strings.Builder).WriteString") && len(ef.Val.Args) == 2:
-				if !onBuilder {
-					return nil, true, fmt.Errorf("WriteString on a different builder")
-				}
-				stream = append(stream, ef.Val.Args[1])
-			case (isCallOf(ef.Val, "(*strings.Builder).WriteByte") || isCallOf(ef.Val, "(*strings.Builder).WriteRune")) && len(ef.Val.Args) == 2 && onBuilder:
-				ch := ef.Val.Args[1]
-				if ch.Op == ir.OConv && len(ch.Args) == 1 {
-					ch = ch.Args[0]
-				}
-				v, ok := int64Const(ch)
-				if !ok || v < 0 || v > 0x10FFFF {
-					return nil, true, fmt.Errorf("a non-constant character is written to the text")
-				}
-				stream = append(stream, ir.Const(constant.MakeString(string(rune(v))), types.Typ[types.String]))
-			case isCallOf(ef.Val, "fmt.Fprintf") && len(ef.Val.Args) == 3 && onBuilder:
-				// fmt.Fprintf(&builder, format, args...) writes the same text as WriteString(fmt.Sprintf(format, args...))
-				sp := e.externFunc(l.Pkg.Types, "fmt", "Sprintf")
-				if sp == nil {
-					// the package need not import Sprintf by that name: any *types.Func of fmt.Sprintf will do
-					return nil, true, fmt.Errorf("fmt.Sprintf not resolvable")
-				}
-				t := ir.Call(sp, ef.Val.Args[1], ef.Val.Args[2])
-				t.Pos = ef.Val.Pos
-				stream = append(stream, t)
-			case (isCallOf(ef.Val, "(*strings.Builder).Grow") || isCallOf(ef.Val, "(*strings.Builder).Len")) && onBuilder:
-				// capacity only
-			case onBuilder && strings.HasPrefix(calleeName(ef.Val), "(*strings.Builder)."):
-				if !isCallOf(ef.Val, "(*strings.Builder).String") {
-					return nil, true, fmt.Errorf("unexpected operation on the builder: %s", clip(ef.Val.Pretty()))
-				}
-			}
+		stream, err := e.textStream(l, lf, r, 0)
+		if err != nil {
+			return nil, true, err
 		}
-		var err error
 		pieces, err = groupStream(stream)
 		if err != nil {
 			return nil, true, err
 		}
-	case r.Op == "concat":
-		// one concatenation: lower-level text + "/NAME:" + value.String() + ...
-		builder = true
-		var err error
-		pieces, err = groupStream(r.Args)
+	case isCallOf(r, "strings.TrimPrefix") && len(r.Args) == 2 && isStringConst(r.Args[1], "/"):
+		// every element written as "/NAME:value" and the first separator cut off again: strings.Join(parts, "/")
+		stream, err := e.textStream(l, lf, r.Args[0], 0)
 		if err != nil {
-			return nil, true, err
+			return nil, false, err
+		}
+		ps, err := groupStream(stream)
+		if err != nil {
+			return nil, false, err
+		}
+		for _, p := range ps {
+			if p.Op != "concat" || len(p.Args) != 2 || !isStrConstTerm(p.Args[0]) || !strings.HasPrefix(constant.StringVal(p.Args[0].C), "/") {
+				return nil, false, fmt.Errorf("strings.TrimPrefix(text, \"/\") over text whose elements do not all start with the separator: %s", clip(p.Pretty()))
+			}
+			q := ir.Concat(ir.Const(constant.MakeString(constant.StringVal(p.Args[0].C)[1:]), types.Typ[types.String]), p.Args[1])
+			q.Pos = p.Pos
+			pieces = append(pieces, q)
 		}
 	case r.Op == ir.OConst && r.C != nil && r.C.Kind() == constant.String:
 		return nil, false, nil // constant text (error paths)
@@ -132,7 +113,7 @@ func (e *Env) emissionsOf(l *facts.Level, lf *ir.Leaf) (list []emission, builder
 			if em.field != nil && em.field.Name() == "Ver" {
 				em.kind = "version"
 			}
-		case p.Op == "concat" && len(p.Args) == 2 && isStrConstTerm(p.Args[0]) && p.Args[1].Op == ir.OCall && len(p.Args[1].Args) == 1 && p.Args[1].Args[0].Op == ir.OField && isStringMethod(p.Args[1]):
+		case p.Op == "concat" && len(p.Args) == 2 && isStrConstTerm(p.Args[0]) && (p.Args[1].Op == ir.OCall || p.Args[1].Op == "invoke") && len(p.Args[1].Args) == 1 && p.Args[1].Args[0].Op == ir.OField && isStringMethod(p.Args[1]):
 			// "NAME:" + field.String()  prints what  Sprintf("%s:%v", NAME, field)  prints (%v of a Stringer is its String())
 			txt := constant.StringVal(p.Args[0].C)
 			em.format = "%s:%v"
@@ -281,10 +262,25 @@ func (e *Env) encodeRules(l *facts.Level) {
 		}
 		cons := fmt.Sprintf("%s emission %s", who, em.name)
 		epos := e.P.Pos(em.term.Pos)
-		okFmt := false
-		for _, f := range sepFmt[isBuilder] {
-			if em.format == f {
-				okFmt = true
+		// separators: strings.Join puts them between the parts (no part carries one); text written piece by piece
+		// carries a "/" in front of every element that follows something (the lower level's text, or an earlier
+		// element of the same path - the if b.Len() > 0 idiom), and none in front of the very first
+		okFmt := true
+		for _, p := range paths {
+			for i, x := range p.list {
+				if x.key() != em.key() {
+					continue
+				}
+				wantSlash := isBuilder && i > 0
+				good := false
+				for _, f := range sepFmt[wantSlash] {
+					if x.format == f {
+						good = true
+					}
+				}
+				if !good {
+					okFmt = false
+				}
 			}
 		}
 		if !okFmt {
@@ -399,7 +395,9 @@ func isStrConstTerm(t *ir.Term) bool {
 	return t.Op == ir.OConst && t.C != nil && t.C.Kind() == constant.String
 }
 
-// isStringMethod: the call is the String() string method of its receiver's own type (fmt's %v uses exactly that).
+// isStringMethod: the call is the String() string method of its receiver's own type (fmt's %v uses exactly that),
+// called directly or through an interface value holding the receiver (fmt.Stringer): the dynamic type of a field
+// stored in an interface is the field's type, whose method set the printer rule inspects.
 func isStringMethod(t *ir.Term) bool {
 	fn, _ := t.Obj.(*types.Func)
 	if fn == nil || fn.Name() != "String" {
@@ -440,7 +438,7 @@ func groupStream(stream []*ir.Term) ([]*ir.Term, error) {
 	for i := 0; i < len(merged); i++ {
 		t := merged[i]
 		if isStrConstTerm(t) {
-			if i+1 < len(merged) && merged[i+1].Op == ir.OCall && isStringMethod(merged[i+1]) {
+			if i+1 < len(merged) && (merged[i+1].Op == ir.OCall || merged[i+1].Op == "invoke") && isStringMethod(merged[i+1]) {
 				p := ir.Concat(t, merged[i+1])
 				p.Pos = merged[i+1].Pos
 				out = append(out, p)
@@ -452,4 +450,66 @@ func groupStream(stream []*ir.Term) ([]*ir.Term, error) {
 		out = append(out, t)
 	}
 	return out, nil
+}
+
+// textStream flattens the text t denotes into the sequence of strings it is made of: the operands of a
+// concatenation, and for builder.String() the strings written to that builder on this path, in order.
+func (e *Env) textStream(l *facts.Level, lf *ir.Leaf, t *ir.Term, depth int) ([]*ir.Term, error) {
+	if depth > 4 {
+		return nil, fmt.Errorf("text built through too many layers")
+	}
+	switch {
+	case t.Op == "concat":
+		var out []*ir.Term
+		for _, a := range t.Args {
+			s, err := e.textStream(l, lf, a, depth+1)
+			if err != nil {
+				return nil, err
+			}
+			out = append(out, s...)
+		}
+		return out, nil
+	case isCallOf(t, "(*strings.Builder).String") && len(t.Args) == 1:
+		bobj := t.Args[0].Key()
+		var stream []*ir.Term
+		for _, ef := range lf.Effects {
+			if ef.Kind != "call" || ef.Val.Op != ir.OCall || len(ef.Val.Args) == 0 {
+				continue
+			}
+			onBuilder := ef.Val.Args[0].Key() == bobj
+			switch {
+			case isCallOf(ef.Val, "(*strings.Builder).WriteString") && len(ef.Val.Args) == 2 && onBuilder:
+				s, err := e.textStream(l, lf, ef.Val.Args[1], depth+1)
+				if err != nil {
+					return nil, err
+				}
+				stream = append(stream, s...)
+			case (isCallOf(ef.Val, "(*strings.Builder).WriteByte") || isCallOf(ef.Val, "(*strings.Builder).WriteRune")) && len(ef.Val.Args) == 2 && onBuilder:
+				ch := ef.Val.Args[1]
+				if ch.Op == ir.OConv && len(ch.Args) == 1 {
+					ch = ch.Args[0]
+				}
+				v, ok := int64Const(ch)
+				if !ok || v < 0 || v > 0x10FFFF {
+					return nil, fmt.Errorf("a non-constant character is written to the text")
+				}
+				stream = append(stream, ir.Const(constant.MakeString(string(rune(v))), types.Typ[types.String]))
+			case isCallOf(ef.Val, "fmt.Fprintf") && len(ef.Val.Args) == 3 && onBuilder:
+				// fmt.Fprintf(&builder, format, args...) writes the same text as WriteString(fmt.Sprintf(format, args...))
+				sp := e.externFunc(l.Pkg.Types, "fmt", "Sprintf")
+				if sp == nil {
+					return nil, fmt.Errorf("fmt.Sprintf not resolvable")
+				}
+				p := ir.Call(sp, ef.Val.Args[1], ef.Val.Args[2])
+				p.Pos = ef.Val.Pos
+				stream = append(stream, p)
+			case (isCallOf(ef.Val, "(*strings.Builder).Grow") || isCallOf(ef.Val, "(*strings.Builder).Len")) && onBuilder:
+				// capacity / length only
+			case onBuilder && strings.HasPrefix(calleeName(ef.Val), "(*strings.Builder).") && !isCallOf(ef.Val, "(*strings.Builder).String"):
+				return nil, fmt.Errorf("unexpected operation on the builder: %s", clip(ef.Val.Pretty()))
+			}
+		}
+		return stream, nil
+	}
+	return []*ir.Term{t}, nil
 }
